@@ -564,6 +564,133 @@ class RuleStream(Stream):
         return json_key(pl)
 
 
+class TemporariesStream(Stream):
+    """ONE long-lived DifferentiationMapper fed a family of 20..60 TEMPORARIES: structurally
+    identical expressions with CommonSubexpression nodes (same shapes and node sizes, different
+    constants), each built inside the call that passes it to the mapper and dead when the call
+    returns (`harness/temporaries.py`), with `gc.collect()` between some steps.  Every returned
+    derivative is judged at once: dual-number value oracle against a rebuilt copy of the member,
+    and tree comparison with the answer of a FRESH mapper on that copy.  Targets state that
+    outlives its input: caches keyed by object identity / address, weak or stale entries (a new
+    node allocated where a dead one was gets the dead one's derivative).  A failure is reported
+    only when the long-lived mapper's answer has a WRONG VALUE (or a different outcome) where the
+    fresh mapper's is right."""
+    name = "temporaries"
+    has_model = False
+
+    def cases(self, rng, tier):
+        from .. import temporaries as T
+        n = 10 if tier == "quick" else 120
+        for i in range(n):
+            v, _ = [(x, True), (y, True), (a0, False), (x, True)][i % 4]
+            vsx = expr_to_sx(v)
+            others = [expr_to_sx(t) for t in (x, y, a1) if t != v]
+            ops = ["sum", "sum", "prod", "prod", "quot", "pow", "cse", "cse"]
+            if i % 3 == 2:
+                ops += ["fn", "fn"]
+            g = T.TemplateGen(rng, ops, fixed_vars=[vsx, vsx, *others], carrier_var=vsx)
+            g.FNS = ["sin", "cos"]                  # defined (and tame in floats) everywhere
+            n_members = rng.randint(20, 60)
+            exprs = T.family(rng, g, rng.randint(2, 3), n_members, repeat=0.05 if i % 2 else 0.0)
+            k = rng.random()
+            if k < 0.3:
+                gc_at = []
+            elif k < 0.5:
+                gc_at = list(range(n_members))
+            else:
+                gc_at = sorted(rng.sample(range(n_members), max(1, n_members // 4)))
+            yield {"exprs": exprs, "var": dumps(vsx), "cfg": CFGS[(i + i // 3) % 3], "gc": gc_at,
+                   "hold": bool(i % 2), "share": bool(i % 5 == 3)}
+
+    def run_impl(self, pl):
+        return "(oracle-only)"
+
+    def oracle(self, pl):
+        from pymbolic.mapper.differentiator import DifferentiationMapper
+        from .. import temporaries as T
+        v = sx_to_expr(loads(pl["var"]))
+        wrt = dual.leaf_key(v)
+        cfg, share = pl["cfg"], pl.get("share", False)
+        acc = self.last = {"members": 0, "judged_by_value": 0, "points": 0, "tree_differs": 0}
+
+        def fresh_mapper():
+            return DifferentiationMapper(v, allowed_nonsmoothness=cfg)
+
+        def judge(i, sx_text, out):
+            acc["members"] += 1
+            where = f"member #{i} of {len(pl['exprs'])} on one DifferentiationMapper"
+            cut = pl        # the whole family is the input: see `shrink`
+            e2 = T.build(sx_text, share)           # a rebuilt copy, alive while judging only
+            if dual.refusal_reasons(e2, cfg) != set():
+                return None                         # not a smooth member of the fragment
+            ref = T.feed(fresh_mapper(), sx_text, share=share)
+            if out[0] == "err" or ref[0] == "err":
+                if out[0] == ref[0] and out[1] == ref[1]:
+                    return None                     # single-call behaviour: stream `trees`
+                if out[0] == "err" and ref[0] == "ok":
+                    return Failure(f"temporary-raises-{out[1]}",
+                                   f"{where}: {show(e2)} raises {out[1]}; a fresh mapper "
+                                   f"differentiates it to {show(ref[1])}", cut)
+                if not has_domain(e2, wrt, random.Random(1)):
+                    return None
+                return Failure(f"temporary-not-refused-{ref[1]}",
+                               f"{where}: {show(e2)} answered although a fresh mapper raises "
+                               f"{ref[1]}", cut)
+            d = out[1] if pl.get("hold", True) else sx_to_expr(loads(out[1]))
+            t_long, t_fresh = T.tree(d), T.tree(ref[1])
+            differs = t_long != t_fresh
+            acc["tree_differs"] += differs
+            rng = random.Random(hash_str(sx_text + cfg))
+            msg = value_mismatch(e2, d, wrt, rng, tries=16 if differs else 8,
+                                 want=6 if differs else 3)
+            acc["judged_by_value"] += LAST.get("points", 0) > 0
+            acc["points"] += LAST.get("points", 0)
+            if msg is None:
+                return None
+            if not differs or value_mismatch(e2, ref[1], wrt, random.Random(2), tries=16,
+                                             want=6) is not None:
+                # the fresh mapper is wrong too: not a matter of temporaries; classified as in `trees`
+                f = check_derivative(e2, v, v, cfg, cut)
+                return f
+            site, part, _ = T.first_difference(t_long, t_fresh)
+            # whose answer is it?  (an earlier member's, if the state outlived that member)
+            src = next((j for j in range(i) if pl["exprs"][j] != sx_text and part in
+                        T.feed(fresh_mapper(), pl["exprs"][j], share=share, post=T.tree)[1]), None)
+            whose = "" if src is None else \
+                f" (that part is what a fresh mapper answers for member #{src}, dropped earlier)"
+            return Failure(f"temporary-wrong-derivative-{site}",
+                           f"{where} (the earlier members were dropped before it was built): "
+                           f"d/d{show(v)} of {show(e2)}: {msg}; the mapper returned {show(d)} where "
+                           f"a fresh mapper returns {show(ref[1])}: differing part "
+                           f"{show(sx_to_expr(loads(part)))}{whose}", cut)
+
+        with warnings.catch_warnings():
+            warnings.simplefilter("ignore")
+            m = fresh_mapper()
+            return T.run_family(m, pl["exprs"], judge, collect_at=pl["gc"],
+                                hold=pl.get("hold", True), share=share)
+
+    def shrink(self, pl):
+        # Which member lands on a recycled address is up to the allocator (about one member in
+        # ten does): a family cut down to the few members that showed the failure in THIS process
+        # would not show it again in a new one.  The family stays whole (a replay then fails as
+        # reliably as the run did); only the knobs are simplified.
+        if pl.get("share"):
+            yield {**pl, "share": False}
+        if pl["gc"]:
+            yield {**pl, "gc": []}
+        if not pl.get("hold", True):
+            yield {**pl, "hold": True}
+
+    def nontrivial_key(self, pl, model, impl):
+        return json_key(pl)
+
+    def stats(self, pl, mo, io, acc):
+        acc["families"] = acc.get("families", 0) + 1
+        for k, n in getattr(self, "last", {}).items():
+            acc[k] = acc.get(k, 0) + int(n)
+
+
 def confusable_cses(e):
     """two CommonSubexpression nodes that are `==` but not the same tree (1 / True / 1.0)"""
     cs = [t for t in dual.subterms(e) if isinstance(t, p.CommonSubexpression)]
@@ -797,7 +924,7 @@ PROP = Prop(
     theorems=[],
     extractors=[extract],
     streams=[TreeStream(), HistStream(), TableStream(), GenTableStream(), GenTreeStream(),
-             RuleStream()],
+             RuleStream(), TemporariesStream()],
     probes=[probes],
     trusted_base=[
         "Lean 4.33 kernel; axioms propext, Classical.choice, Quot.sound only",
